@@ -234,6 +234,8 @@ def rlist(rng, ci):
             pairs.append(("name", rng.choice(["n1", "n2", "roads"])))
         if rng.random() < .3:
             pairs.append(("num", rng.choice([5, 3, 9, 3])))
+        if rng.random() < .3:
+            pairs.append(("color", rng.choice([[255, 0, 0], [0, 0, 0], [255, 0, 0], ["roads", "x"]])))     # list-valued keywords exist too
         rng.shuffle(pairs)
         items.append(mkdict(ci, pairs))
     return items
@@ -247,7 +249,7 @@ def find_cases(ctx, n):
         ci = rng.random() < .6
         lst = rlist(rng, ci)
         fn = rng.choice(["find", "findall", "findall", "findunique", "findkey"])
-        key = rng.choice(["group", "GROUP", "name", "Name", "num", "missing"])
+        key = rng.choice(["group", "GROUP", "name", "Name", "num", "missing", "color", "Color"])
         snap = core.canon(plain(lst))
         arg = copy.deepcopy(lst)
         rep = {"fn": fn, "ci": ci, "key": key, "lst": json.loads(snap)}
@@ -256,7 +258,7 @@ def find_cases(ctx, n):
             return exp_key in it
         try:
             if fn == "find":
-                value = rng.choice(["roads", "road", "", 0, 2, "n1", "zz", 5])
+                value = rng.choice(["roads", "road", "", 0, 2, "n1", "zz", 5] + ([[255, 0, 0], [0, 0, 0], ["roads", "x"], ["n1", "n2"]] if rng.random() < .4 else []))
                 rep["value"] = value
                 real = ("ok", core.canon(plain(mappyfile.find(arg, key, value))))
                 exp = next((it for it in lst if holds(it) and it[exp_key] == value), None)
@@ -271,6 +273,8 @@ def find_cases(ctx, n):
                 expected = ("ok", core.canon(plain(exp)))
                 req = {"op": "findall", "ci": ci, "key": key, "value": core.enc(value), "lst": core.enc(plain(lst))}
             elif fn == "findunique":
+                if key.lower() == "color":
+                    key = "name"; exp_key = "name"; rep["key"] = key      # list values are not hashable: outside findunique's domain
                 if key.lower() == "group":   # mixed str/int values are not sortable: use a homogeneous projection
                     for it in list(lst) + list(arg):
                         if "group" in it and not isinstance(it["group"], (str, type(None))):
